@@ -440,6 +440,8 @@ Definition tables_ok : bool :=
   dynamic_policy_key_is_last_segment &&
   empty_capability_list_skips_check && source_route_uses_project_manifest &&
   aasm_route_uses_project_manifest && avbc_route_falls_back_to_project_manifest &&
+  (* manifest discovery and embedding: `<file name>.toml` for any entry file, then aelys.toml; compile embeds whatever it found *)
+  per_file_manifest_is_filename_dot_toml && directory_manifest_is_aelys_toml && compile_embeds_manifest_whenever_present &&
   (* every native of std.fs / std.net re-checks its capability per call *)
   gated_natives_percall "fs" && gated_natives_percall "net" &&
   (* no native outside the gated modules touches files / processes / sockets unchecked *)
